@@ -285,7 +285,15 @@ impl Gen {
                          Task::ForEach(t, e, x, Box::new(body), Box::new(self.task(budget, nvars.max(x + 1), handles, depth))) }
             74..=83 if depth < 2 && handles.len() < 6 => { let h = 8 + handles.len(); let mut cb = (*budget).min(5);
                          let child = self.task(&mut cb, nvars, &mut handles.clone(), depth + 1); *budget -= 2; handles.push(h);
-                         Task::Spawn(Box::new(child), h, Box::new(self.task(budget, nvars, handles, depth))) }
+                         // handle used at once, in the same poll as the spawn: abort before the first poll of the
+                         // child, await in the same executor pass, or both
+                         let rest = self.task(budget, nvars, handles, depth);
+                         let rest = if self.legacy { rest } else { match self.rng.below(10) {
+                             0 | 1 => Task::AbortT(h, Box::new(Task::Join(h, Box::new(rest)))),
+                             2 => Task::AbortT(h, Box::new(rest)),
+                             3 | 4 | 5 => Task::Join(h, Box::new(rest)),
+                             _ => rest } };
+                         Task::Spawn(Box::new(child), h, Box::new(rest)) }
             84..=90 if !handles.is_empty() => { let h = *self.rng.pick(handles); Task::Join(h, Box::new(self.task(budget, nvars, handles, depth))) }
             91..=95 if !handles.is_empty() => { let h = *self.rng.pick(handles); Task::AbortT(h, Box::new(self.task(budget, nvars, handles, depth))) }
             96..=97 => { let n = 1 + self.rng.below(2); Task::Yield(n, Box::new(self.task(budget, nvars, handles, depth))) }
